@@ -1052,6 +1052,12 @@ func Run(r *common.Run) error {
 	for _, peer := range [][]string{{"s-"}, {"s" + sf}, {"f"}, {"c" + sf}, {"c" + sf, "s-"}, {}, {"w"}, {"sbad"}, {"c" + sf, "c" + sf}} {
 		_ = runClient(r, cliCase{mechs: []string{"SCRAM-SHA-1"}, adv: []string{"PLAIN", "SCRAM-SHA-1"}, peer: peer}, "cli-scram-static")
 	}
+	// channel-binding variants on a connection without TLS state: the client falls back to
+	// "no channel binding support" (the receiving side of *-PLUS is not exercised:
+	// mellium.im/sasl v0.3.2 panics with "does not implemented yet" when a client selects it)
+	for _, peer := range [][]string{{}, {"s-"}, {"f"}, {"c" + sf}, {"c" + sf, "s-"}} {
+		_ = runClient(r, cliCase{mechs: []string{"SCRAM-SHA-1-PLUS", "SCRAM-SHA-1"}, adv: []string{"SCRAM-SHA-1", "SCRAM-SHA-1-PLUS"}, peer: peer}, "cli-scram-plus")
+	}
 	for shape := 0; shape <= 5; shape++ {
 		_ = runClient(r, cliCase{mechs: []string{"SCRAM-SHA-1", "PLAIN"}, adv: []string{"PLAIN", "SCRAM-SHA-1"}, dyn: scramPeer(shape)}, fmt.Sprintf("cli-scram-shape%d", shape))
 	}
